@@ -388,7 +388,7 @@ def main(argv=None):
         'wall_s': round(wall, 2),
         'violations': len(violations),
     }
-    if not args.only:
+    if not args.only and not os.environ.get('VERIF_NO_EVIDENCE'):
         os.makedirs(os.path.join(VERIF, 'evidence'), exist_ok=True)
         with open(os.path.join(VERIF, 'evidence', pid + '.json'), 'w') as f:
             json.dump(ev, f, indent=1, default=repr)
